@@ -13,7 +13,8 @@ Model: `P2sh.Pcap` (`Model/Pcap.lean`); specification: `P2sh.Spec.PcapFile`.
   `corrupt_prefix` — … a record header with caplen > snaplen after `k` records: those `k`, then an error object;
 * `write_read_id` — writing packets (caplen ≤ 65 535, the snaplen of the header `pcap_open(.., "w")` writes)
   and reading the file back reproduces them; `write_read_excluded` is the witness for the excluded case;
-* `no_panic` — no run of the scripted model ever panics.
+* `no_panic` — no run of the scripted model ever panics;
+* (`Props/C19Spec.lean`) `decode_encode` — the specification's decoder, the oracle of the check, inverts its encoder.
 -/
 namespace P2sh.Props.C19
 open P2sh P2sh.Pcap
